@@ -73,6 +73,12 @@ pub fn run(ctx: &mut Ctx) {
 
     let n = ctx.tier.pick(120_000, 600_000);
     ctx.run_proptest("random-any-length", &STD, n, payload_inputs(vec![6, 8, 17], LenMode::Any, Prop::C15, 6, 0.25), check);
+    // the same generated payloads, a tenth of them through the sentence path (fragments included), on the
+    // alloc and no-allocator builds
+    for cfg in crate::adapter::configs().into_iter().skip(1) {
+        let n_other = ctx.tier.pick(20_000, 200_000);
+        ctx.run_proptest("random-assignments", cfg, n_other, crate::gen::payload::payload_inputs(vec![6, 8, 17], crate::gen::payload::LenMode::Standard, Prop::C15, 8, 0.15), check);
+    }
     // every field inverted as a whole and bit by bit against all-zero and all-one backgrounds
     for &t in crate::refmodel::layout::SUPPORTED.iter() {
         for len in crate::refmodel::layout::standard_lengths(t) {
